@@ -162,7 +162,7 @@ def handle (toks : List String) : String :=
       | .err _ => "ERR:parse"
     | _, _ => "bad-op"
   -- C04 dict <fmt> <mode> <hist>
-  | ["dict", fmt, mode, hs] =>
+  | ["dict", fmt, mode, _reuse, hs] =>
     match parseHist hs with
     | some hist =>
       let err := fmt = "file"
